@@ -275,6 +275,13 @@ impl OsIpcSender {
             fds.push(shared_memory_region.store.fd());
         }
 
+        // The receiver's control message buffer only has room for `MAX_FDS_IN_CMSG` descriptors;
+        // anything beyond that would be silently truncated by the kernel on the receiving side.
+        // Refuse such a message instead of delivering it with attachments missing.
+        if fds.len() > MAX_FDS_IN_CMSG as usize {
+            return Err(UnixError::Errno(libc::EMSGSIZE));
+        }
+
         // `len` is the total length of the message.
         // Its value will be sent as a message header before the payload data.
         //
@@ -404,7 +411,11 @@ impl OsIpcSender {
         // This way we avoid fragments of different messages interleaving in the receiver.
         //
         // The receiver end of the channel is sent with the first fragment
-        // along any other file descriptors that are to be transferred in the message.
+        // along any other file descriptors that are to be transferred in the message --
+        // so a fragmented message has room for one descriptor less.
+        if fds.len() >= MAX_FDS_IN_CMSG as usize {
+            return Err(UnixError::Errno(libc::EMSGSIZE));
+        }
         let (dedicated_tx, dedicated_rx) = channel()?;
         // Extract FD handle without consuming the Receiver, so the FD doesn't get closed.
         fds.push(dedicated_rx.fd.get());
